@@ -49,6 +49,12 @@ func (f *Mapcan) Call(s *slip.Scope, args slip.List, depth int) slip.Object {
 	fn := args[pos]
 	d2 := depth + 1
 	caller := ResolveToCaller(s, fn, d2)
+	// nil is the empty list, mapping over it yields nil.
+	for i := 1; i < len(args); i++ {
+		if args[i] == nil {
+			return nil
+		}
+	}
 
 	pos++
 	list, ok := args[pos].(slip.List)
